@@ -27,7 +27,7 @@
 (*   TDone   [g]                   g's context was found cancelled                                       *)
 (*   LOpen [t] / LClosed [t, why]  a listen-side tunnel was started / its OnClosed callback ran          *)
 (*   ChangeCall / Change [x, v]    a mapping of client x is about to be created / is stored: version v   *)
-(*   PCall [p, x] / PRet [p]       NotifyClientUpdate(x), numbered p                                     *)
+(*   PCall [p, x, nd] / PRet [p]   NotifyClientUpdate(x) on node nd, numbered p                          *)
 (*   PWire   [c, x, v]             a ConfigSet for client x (\"\" if it names no mapping) carrying version v *)
 (*                                 was written to c                                                      *)
 (*   Stuck [c] / Unstuck [c]       the driver blocks / unblocks writes to c                              *)
@@ -64,10 +64,11 @@
 (*   PushOnce     more ConfigSets with one version on a connection than pushes that could carry it       *)
 (*   PushOrder    an older configuration was written after a newer one although every push that could   *)
 (*                have carried the older had returned before any that could have carried the newer was   *)
-(*                called, on a connection that existed before them                                       *)
+(*                called, all on one node, on a connection that existed before them                      *)
 (*   NoPanic                                                                                             *)
-(* Silent (accepted): sends racing a (re)connect / drop of the target; concurrent pushes; pushes in      *)
-(* flight while the client connects; an acknowledgement for a malformed payload; what a dead connection  *)
+(* Silent (accepted): sends racing a (re)connect / drop of the target; concurrent pushes; pushes made    *)
+(* on different nodes (the local write overtakes the broker); pushes in flight while the client connects; *)
+(* an acknowledgement for a malformed payload; what a dead connection  *)
 (* does to the caller of the local push.                                                                 *)
 EXTENDS VLib
 
@@ -273,7 +274,7 @@ TrLClosed ==
 TrChangeCall == /\ Is("ChangeCall") /\ j' = [j EXCEPT !.verhi[Ev.x] = Ev.v] /\ l' = l + 1 /\ UNCHANGED viol
 TrChange == /\ Is("Change") /\ j' = [j EXCEPT !.ver[Ev.x] = Ev.v] /\ l' = l + 1 /\ UNCHANGED viol
 TrPCall == /\ Is("PCall")
-           /\ j' = [j EXCEPT !.pushes = Put(j.pushes, Ev.p, [x |-> Ev.x, vlo |-> j.ver[Ev.x], vhi |-> 0 - 1, call |-> l, ret |-> 0,
+           /\ j' = [j EXCEPT !.pushes = Put(j.pushes, Ev.p, [x |-> Ev.x, nd |-> Opt("nd", 1), vlo |-> j.ver[Ev.x], vhi |-> 0 - 1, call |-> l, ret |-> 0,
                                                             stable |-> ~Pending(Ev.x), settled |-> FALSE, cur |-> LiveCtl(Ev.x) \ j.stuck,
                                                             nstuck |-> Cardinality(j.stuck)])]
            /\ l' = l + 1 /\ UNCHANGED viol
@@ -282,8 +283,12 @@ TrPRet == /\ Is("PRet")
           /\ l' = l + 1 /\ UNCHANGED viol
 \* pushes that could have carried version v for client x
 Cand(x, v) == {p \in DOMAIN j.pushes : j.pushes[p].x = x /\ j.pushes[p].vlo <= v /\ (j.pushes[p].vhi < 0 \/ v <= j.pushes[p].vhi)}
+\* every push that could have carried the older version had returned before any that could have carried the newer one
+\* was called - and all of them were made on the same node (a push made on the node that holds the client is written at
+\* once, one made elsewhere travels through the broker: between the two paths nothing is promised)
 SeqBefore(S, B) == /\ S # {} /\ B # {}
-                   /\ \A s \in S, b \in B : j.pushes[s].ret # 0 /\ j.pushes[s].ret < j.pushes[b].call
+                   /\ \A s \in S, b \in B : /\ j.pushes[s].ret # 0 /\ j.pushes[s].ret < j.pushes[b].call
+                                              /\ j.pushes[s].nd = j.pushes[b].nd
 TrPWire ==
   /\ Is("PWire")
   /\ IF In(j.conns, Ev.c)
